@@ -218,3 +218,26 @@ pub assume_specification[ i8::unsigned_abs ](x: i8) -> (r: u8)
     ensures
         r as int == (if x >= 0 { x as int } else { -(x as int) }),
 ;
+
+// ---- std::collections::BTreeMap (only new / insert / contains_key are used)
+#[verifier::external_body]
+#[verifier::reject_recursive_types(K)]
+#[verifier::reject_recursive_types(V)]
+pub struct BTreeMap<K, V> { k: core::marker::PhantomData<(K, V)> }
+
+impl<K: Key, V> BTreeMap<K, V> {
+    pub uninterp spec fn view(&self) -> Map<K::G, V>;
+
+    #[verifier::external_body]
+    pub fn new() -> (r: Self) ensures r@ == Map::<K::G, V>::empty() { unimplemented!() }
+
+    #[verifier::external_body]
+    pub fn insert(&mut self, k: K, v: V) -> (r: Option<V>)
+        ensures final(self)@ == old(self)@.insert(k.g(), v)
+    { unimplemented!() }
+
+    #[verifier::external_body]
+    pub fn contains_key(&self, k: &K) -> (r: bool)
+        ensures r == self@.contains_key(k.g())
+    { unimplemented!() }
+}
